@@ -150,7 +150,10 @@ def intSem : OpSem Int := fun op ins bodies =>
     | none => none
   | "If", [some c] =>
     (match bodies with
-     | [t, e] => if c ≠ 0 then t [] else e []
+     | [b0, b1] =>
+       -- subgraphs come in attribute order; the attribute key records which is which
+       if op.attrs.startsWith "else_branch" then (if c ≠ 0 then b1 [] else b0 [])
+       else (if c ≠ 0 then b0 [] else b1 [])
      | _ => none)
   | _, _ => none
 
@@ -188,18 +191,17 @@ def handleInline (req : Json) : Except String Json := do
     | .ok cj =>
       let npos ← cj.getObjValAs? Nat "npos"
       let kws ← cj.getObjValAs? (List String) "kws"
+      let posT ← (← cj.getObjValAs? (Array Json) "posTypes").toList.mapM parseTy
+      let kwT ← (← cj.getObjValAs? (Array Json) "kwTypes").toList.mapM parseTy
       let r := if pinned then bindPinned p.inNames p.defaults ⟨npos, kws⟩
                else bind p.inNames p.defaults ⟨npos, kws⟩
       out := out ++ [("bind", match r with
         | .error e => errJson e
         | .ok slots => Json.arr (slots.map slotJson).toArray)]
-    match req.getObjVal? "argTypes" with
-    | .error _ => pure ()
-    | .ok aj =>
-      let args ← (← aj.getArr?).toList.mapM fun a =>
-        if a == Json.str "untyped" then pure none else some <$> parseTy a
-      out := out ++ [("typecheck", match typeCheck p.inTypes args with
-        | .ok _ => Json.str "ok" | .error e => errJson e)]
+      if !pinned then
+        out := out ++ [("call", match call p ⟨npos, kws⟩ posT (kws.zip kwT) with
+          | .error e => errJson e
+          | .ok slots => Json.arr (slots.map slotJson).toArray)]
     match req.getObjVal? "ctx" with
     | .error _ => pure ()
     | .ok xj =>
